@@ -154,13 +154,6 @@ func discharge(vcs []*VC, opt runOpts) {
 				if !staged {
 					r = raceSolve(opt.scratch, j.o.Name, q, t, opt.all && j.o.Expect != "fail")
 				}
-				if r.Answer != "unsat" && r.Answer != "sat" && j.o.Expect == "" && !opt.noRetry {
-					// one retry with a doubled budget (DESIGN 7, alarm hygiene)
-					r2 := raceSolve(opt.scratch, j.o.Name+".retry", q, 2*t, false)
-					if r2.Answer == "unsat" || r2.Answer == "sat" {
-						r = r2
-					}
-				}
 				j.o.Result = &r
 				if opt.cacheDir != "" && r.Answer == "unsat" && j.o.Expect == "" {
 					cacheStore(opt.cacheDir, q, r)
@@ -173,6 +166,48 @@ func discharge(vcs []*VC, opt runOpts) {
 	}
 	close(ch)
 	wg.Wait()
+	if opt.noRetry {
+		return
+	}
+	// Alarm hygiene: an obligation left undecided (timeout / unknown, not a counterexample) in the
+	// parallel phase is tried again when the machine is quiet: few at a time, four times the budget,
+	// all back ends. Only the first 16 are retried: more undecided obligations than that are not noise.
+	var again []job
+	for _, j := range jobs {
+		if j.o.Expect == "" && j.o.Result != nil && j.o.Result.Answer != "unsat" && j.o.Result.Answer != "sat" && j.o.Result.Answer != "error" {
+			again = append(again, j)
+		}
+	}
+	if len(again) > 16 {
+		again = again[:16]
+	}
+	sem := make(chan bool, 3)
+	var wg2 sync.WaitGroup
+	for _, j := range again {
+		wg2.Add(1)
+		sem <- true
+		go func(j job) {
+			defer wg2.Done()
+			defer func() { <-sem }()
+			q := j.vc.query(j.o)
+			r2 := raceSolve(opt.scratch, j.o.Name+".retry", q, 4*opt.timeoutS, false)
+			if r2.Answer != "unsat" && r2.Answer != "sat" && len(j.vc.facts) > 150 {
+				sq := j.vc.slicedQuery(j.o, 3)
+				if r3 := raceSolve(opt.scratch, j.o.Name+".retry-sliced", sq, 2*opt.timeoutS, false); r3.Answer == "unsat" {
+					r3.Backend += " (sliced)"
+					r2 = r3
+				}
+			}
+			if r2.Answer == "unsat" || r2.Answer == "sat" {
+				r2.TimeS += j.o.Result.TimeS
+				j.o.Result = &r2
+				if opt.cacheDir != "" && r2.Answer == "unsat" && !strings.Contains(r2.Backend, "sliced") {
+					cacheStore(opt.cacheDir, q, r2)
+				}
+			}
+		}(j)
+	}
+	wg2.Wait()
 }
 
 func (o *Obligation) ok() bool {
